@@ -23,6 +23,10 @@ fn components() -> Value {
 pub struct RunStep {
     pub opts: RunOpts,
     pub behav: Vec<Behav>,
+    /// an invocation that monorail must reject before running anything (unknown sequence): it is not
+    /// a run, and must leave the record of the completed runs alone
+    #[serde(default)]
+    pub rejected: bool,
 }
 
 pub fn flat_world(rng: &mut Rng, nt: usize, ncmd: usize, max_retained: usize, undefined_pct: u32, git: bool) -> WorldSpec {
@@ -65,13 +69,13 @@ pub fn gen_step(rng: &mut Rng, spec: &WorldSpec, serial: usize, allow_fail: bool
                 OutStep { fd, hex: hex(format!("r{} {} {} fd{} line{}\n", serial, cf.command, cf.target, fd, i).as_bytes()), pause_ms: 0 }
             })
             .collect();
-        behav.push(Behav { command: cf.command.clone(), target: cf.target.clone(), outs, code: 0 });
+        behav.push(Behav { command: cf.command.clone(), target: cf.target.clone(), outs, code: 0, exit_pause_ms: 0 });
     }
     if allow_fail && !behav.is_empty() && rng.chance(1, 4) {
         let i = rng.below(behav.len());
         behav[i].code = *rng.pick(&[1, 2, 77]);
     }
-    RunStep { opts, behav }
+    RunStep { opts, behav, rejected: false }
 }
 
 pub fn step_script(step: &RunStep, rand_seed: u64) -> RunScript {
@@ -176,7 +180,13 @@ fn gen_c12(seed: u64, idx: usize, tier: Tier) -> C12Scenario {
     let spec = flat_world(&mut rng, nt, ncmd, max, 10, false);
     let mult = if tier == Tier::Thorough { rng.range(3, 6) } else { rng.range(3, 4) };
     let n = (max * mult).max(4).min(24);
-    let runs = (1..=n).map(|i| gen_step(&mut rng, &spec, i, true, ncmd)).collect();
+    let mut runs: Vec<RunStep> = (1..=n).map(|i| gen_step(&mut rng, &spec, i, true, ncmd)).collect();
+    for r in runs.iter_mut().skip(1) {
+        if rng.chance(1, 7) {
+            r.rejected = true;
+            r.opts.sequences = vec!["no-such-sequence".into()];
+        }
+    }
     C12Scenario { spec, runs, rand_seed: rng.next_u64() % 1_000_000 }
 }
 
@@ -209,8 +219,56 @@ impl Property for C12 {
         let mut dirsets: Vec<BTreeSet<String>> = vec![];
         let mut shrunk_slot = false;
         let hang = Duration::from_millis(default_hang_ms());
-        for (i0, step) in sc.runs.iter().enumerate() {
-            let serial = i0 + 1;
+        let mut serial = 0usize;
+        let mut last_printed: Option<Value> = None;
+        for step in sc.runs.iter() {
+            if step.rejected {
+                let o = w.cli_v(&step.opts.to_args());
+                out.sub_evals += 1;
+                out.fault("rejected_invocation_in_history", 1);
+                out.trace.push(format!("rejected invocation {} -> exit {:?}", step.opts.to_args().join(" "), o.code));
+                if o.code == Some(0) || o.code == Some(1) {
+                    out.advisories.push("an unknown sequence was not rejected".into());
+                    out.skipped = Some("reject_not_rejected(other property)".into());
+                    return out;
+                }
+                if serial == 0 {
+                    continue;
+                }
+                // everything recorded for the completed runs must still be there
+                let max_ = max;
+                let slot = (serial - 1) % max_ + 1;
+                let rs = w.cli(&["result", "show"]);
+                match (rs.code, rs.json(), &last_printed) {
+                    (Some(0), Some(d), Some(p)) if canon_doc(&d) == canon_doc(p) => {}
+                    _ => out.violate("result_latest", "after_rejected_invocation", format!("after run {} and a rejected invocation ({}), `result show` no longer returns run {}'s document: exit {:?} {}", serial, step.opts.to_args().join(" "), serial, rs.code, rs.err_str().trim())),
+                }
+                match show_logs(&w, None) {
+                    Ok(got) => {
+                        if let Some((class, msg)) = diff_blocks(&got, &history[serial - 1]) {
+                            out.violate("logs_latest", &format!("after_rejected_invocation:{}", class), format!("after run {} (slot {}) and a rejected invocation: {}", serial, slot, msg));
+                        }
+                    }
+                    Err(e) => out.violate("logs_latest", "after_rejected_invocation:error", format!("after run {} and a rejected invocation: {}", serial, e)),
+                }
+                let first = if serial > max_ { serial - max_ + 1 } else { 1 };
+                for j in first..=serial {
+                    let sj = (j - 1) % max_ + 1;
+                    match show_logs(&w, Some(sj)) {
+                        Ok(got) => {
+                            if let Some((class, msg)) = diff_blocks(&got, &history[j - 1]) {
+                                out.violate("logs_by_id", &format!("after_rejected_invocation:{}", class), format!("after run {} and a rejected invocation: `log show --id {}` should still show run {}: {}", serial, sj, j, msg));
+                            }
+                        }
+                        Err(e) => out.violate("logs_by_id", "after_rejected_invocation:error", format!("after run {} and a rejected invocation: --id {} (run {}): {}", serial, sj, j, e)),
+                    }
+                }
+                if !out.violations.is_empty() {
+                    break;
+                }
+                continue;
+            }
+            serial += 1;
             let tr = drive_run(&mut w, "M1", &step_script(step, sc.rand_seed + serial as u64), hang);
             out.steps += tr.steps as u64;
             out.sub_evals += 1;
@@ -232,6 +290,7 @@ impl Property for C12 {
             };
             let want = expected_blocks(&tr);
             history.push(want.clone());
+            last_printed = Some(printed.clone());
             let slot = (serial - 1) % max + 1;
             // result show == printed document
             let rs = w.cli(&["result", "show"]);
@@ -294,7 +353,7 @@ impl Property for C12 {
                 break;
             }
         }
-        let wraps = sc.runs.len() / max;
+        let wraps = serial / max;
         out.nontrivial = wraps >= 2 && shrunk_slot;
         out.probe("slot_reused_with_fewer_directories", shrunk_slot as u64);
         out.signature = format!("max={} n={} {:?}", max, sc.runs.len(), sc.runs.iter().map(|r| (r.opts.commands.clone(), r.opts.targets.len(), r.behav.iter().any(|b| b.code != 0))).collect::<Vec<_>>());
